@@ -28,6 +28,8 @@ class C10(Prop):
         n_cl_bound = 60
         case = {"edges": edges, "max_size": rng.choice([0, 0, 2, 3, 4]), "shape": shape,
                 "draws": [rng.randrange(1 << 30) for _ in range(n_cl_bound)]}
+        if i % 4 == 1:
+            case["vnames"] = rng.choice(["prefix", "digit"])
         if rng.random() < 0.5 and len(edges) >= 2:
             # history: the SAME graph object was covered before, then rewired in place by double edge swaps that keep
             # the vertex and edge counts (as the library's own rewiring does), and is covered again
@@ -46,19 +48,24 @@ class C10(Prop):
         import networkx as nx
         from gcmpy.covers import mpcc as mod
         G = nx.Graph()
+        # vertices may be named by strings: the label then spells them as Python would print them (with quotes)
+        vn = case.get("vnames")
+        nm = (lambda v: f"n{v}") if vn == "prefix" else (lambda v: str(v)) if vn == "digit" else (lambda v: v)
+        inv = {nm(v): v for e in list(case["edges"]) + list(case.get("prior_edges") or []) for v in e}
+        E = lambda es: [(nm(a), nm(b)) for a, b in es]
         if case.get("prior_edges"):
-            G.add_edges_from([tuple(e) for e in case["edges"]])       # fixes the node order
+            G.add_edges_from(E(case["edges"]))       # fixes the node order
             G.remove_edges_from(list(G.edges()))
-            G.add_edges_from([tuple(e) for e in case["prior_edges"]])
+            G.add_edges_from(E(case["prior_edges"]))
             class Ident(SemanticRandom):
                 def on_permutation(self, items, ctx):
                     return list(items)
             with installed(Ident()):
                 mod.MPCC(G, case["max_size"])
             G.remove_edges_from(list(G.edges()))
-        G.add_edges_from([tuple(e) for e in case["edges"]])
-        before_nodes = list(G.nodes())
-        before_edges = sorted(tuple(sorted(e)) for e in G.edges())
+        G.add_edges_from(E(case["edges"]))
+        before_nodes = [inv[v] for v in G.nodes()]
+        before_edges = sorted(tuple(sorted((inv[a], inv[b]))) for a, b in G.edges())
         rec = {}
 
         class R(SemanticRandom):
@@ -69,23 +76,33 @@ class C10(Prop):
                 d = case["draws"]
                 ScriptedRandom((d * (len(x) // len(d) + 1))[:len(x)], mode="mod").shuffle(x)
                 if "L" not in rec and all(isinstance(c, (list, tuple)) for c in x):
-                    rec["L"] = [list(c) for c in x]
+                    rec["L"] = [[inv.get(v, repr(v)) for v in c] for c in x]
                 return x
         sem = R()
         with installed(sem):
             out = mod.MPCC(G, case["max_size"])
         labels = []
+        bad_labels = []
         for a, b in out.edges():
             s = out.edges[a, b].get("clique")
+            e = list(sorted((inv.get(a, -1), inv.get(b, -1))))
             if s is None:
-                labels.append([list(sorted((a, b))), None])
-            else:
+                labels.append([e, None])
+                continue
+            try:
                 parts = s.split("-")
-                labels.append([list(sorted((a, b))), [int(parts[0]), ast.literal_eval(parts[1]), int(parts[-1])], s])
+                members = ast.literal_eval(parts[1])
+                if not all(m in inv for m in members):
+                    raise ValueError("members are not vertex names")
+                labels.append([e, [int(parts[0]), [inv[m] for m in members], int(parts[-1])], s])
+            except Exception as ex:       # the label does not read back as size-members-id over the graph's own vertex names
+                bad_labels.append(f"{s!r}: {type(ex).__name__}")
+                labels.append([e, None])
         return {"labels": sorted(labels, key=lambda t: t[0]), "L": rec.get("L"), "rng_unexpected": sem.summary()["n_unexpected"],
-                "same_object": out is G, "nodes_same": list(out.nodes()) == before_nodes,
-                "edges_same": sorted(tuple(sorted(e)) for e in out.edges()) == before_edges,
-                "edge_order": [list(e) for e in G.edges()], "node_order": before_nodes}
+                "bad_labels": bad_labels[:3],
+                "same_object": out is G, "nodes_same": [inv.get(v, -1) for v in out.nodes()] == before_nodes,
+                "edges_same": sorted(tuple(sorted((inv.get(a, -1), inv.get(b, -1)))) for a, b in out.edges()) == before_edges,
+                "edge_order": [[inv[a], inv[b]] for a, b in G.edges()], "node_order": before_nodes}
 
     def request(self, case, obs):
         if len(cc.nodes_of(case["edges"])) > 12:
@@ -107,6 +124,9 @@ class C10(Prop):
         if "exc" in obs:
             return [f"raised: {obs['exc']}: {obs.get('msg', '')[:80]}"]
         f = []
+        if obs.get("bad_labels"):
+            f.append(f"label-unreadable: label {obs['bad_labels'][0]} does not read back as size-[members]-id over the graph's vertex names")
+            return f
         if not (obs["nodes_same"] and obs["edges_same"]):
             f.append("graph-changed: vertices or edges differ after covering")
         ms = case["max_size"]
@@ -118,7 +138,9 @@ class C10(Prop):
                 return f
             size, members, cid = t[1]
             by_label.setdefault((size, tuple(members), cid), []).append(tuple(t[0]))
-            if t[2] != f"{size}-{members}-{cid}":
+            vn = case.get("vnames")
+            names = [f"n{v}" if vn == "prefix" else str(v) if vn == "digit" else v for v in members]
+            if t[2] != f"{size}-{names}-{cid}":
                 f.append("label-format")
         ids = [k[2] for k in by_label]
         if len(set(ids)) != len(ids):
